@@ -187,6 +187,46 @@ def run_proto(R, exe, runner, n, seed):
             R.proof_problems.append("runner on protocol trace: " + l[:300])
 
 
+def run_race(R, n, seed):
+    """the protocol-level harness under the Go race detector: every reported race with an access in dv/ is a failure"""
+    exe = os.path.join(R.work, "h-race.test")
+    ok, log = vlib.go_test_build("dv", exe, race=True)
+    if not ok:
+        R.proof_problems.append("race build of the dv harness failed: " + log[-300:]); return
+    trace = os.path.join(R.work, "ptrace-race")
+    env = vlib.goenv(); env.update(VERIF_SEED=str(seed), VERIF_N=str(n), VERIF_OUT=trace, GORACE="halt_on_error=0")
+    rc, out = vlib.sh([exe, "-test.run", "TestProto$", "-test.count=1", "-test.timeout=0"], env=env, timeout=3000)
+    d = R.coverage.setdefault("distribution", {})
+    d["race_proto_cases"] = d.get("race_proto_cases", 0) + n
+    blocks = out.split("WARNING: DATA RACE")[1:]
+    seen = set()
+    for b in blocks:
+        accs, cur = [], None
+        for l in b.split("\n"):
+            if re.match(r"^(Read|Write|Previous read|Previous write) at", l):
+                cur = []; accs.append(cur)
+            elif l.startswith(("Goroutine", "====")):
+                cur = None
+            elif cur is not None and l.strip().startswith("/") and len(cur) < 3:
+                cur.append(l.strip().split(" +")[0])
+        sites = [a[0] if a else "?" for a in accs[:2]]
+        frames = [f for a in accs[:2] for f in a]
+        mine = [f for f in frames if "/dv/" in f and "/harness/" not in f and "zz_verif" not in f]
+        if not mine:
+            continue
+        rel = lambda f: f.split("/dv/", 1)[-1] if "/dv/" in f else os.path.basename(f)
+        sig = "race:" + "|".join(sorted(set(rel(f) for f in mine))[:3])
+        if sig in seen:
+            continue
+        seen.add(sig)
+        R.oracle_failure(sig, "data race in the dv daemon while the real routers run their Start() loops (Go race detector)",
+                         dict(report=("WARNING: DATA RACE" + b)[:3500], seed=seed, n=n,
+                              replay_hint="go1.26 test -race -tags verif ./harness/dv -run TestProto with VERIF_SEED=%d VERIF_N=%d" % (seed, n)))
+    d["race_reports"] = d.get("race_reports", 0) + len(blocks)
+    if rc != 0 and not blocks:
+        R.oracle_failure("proto-harness-crash-race", "the protocol-level harness aborted under -race", dict(output=out[-3000:], seed=seed, n=n))
+
+
 def replay_ops(R, exe, runner, ops, tag="rp"):
     """re-run exactly these case/node/ev/chk lines on the implementation and the model; returns the runner output"""
     opsf = os.path.join(R.work, "ops-%s.txt" % tag)
@@ -271,7 +311,7 @@ def run(R):
                           "non-trivial = at least 3 event kinds and some router learnt a remote destination; distinct by SHA-1 of the event list. "
                           "Protocol-level cases (proto_*): 2..6 real routers running their own Start() loops (tickers, Sync Interests, advertisement fetches with 15% loss, ribUpdate goroutines) "
                           "over a simulated network in virtual time, 2-3 phases of link/router loss and return, spec oracle against the physical topology after each; "
-                          "non-trivial = at least two checks and a learnt remote destination")
+                          "non-trivial = at least two checks and a learnt remote destination. race_proto_cases: the same protocol-level cases under the Go race detector (not counted as evaluations)")
     # corpus first: minimised histories kept from earlier failures (mutation trials)
     cdir = os.path.join(vlib.VERIF, "corpus", "C18")
     ncorp = 0
@@ -291,6 +331,7 @@ def run(R):
     R.coverage.setdefault("distribution", {})["corpus_histories"] = ncorp
     runs = [(120, R.seed, False, "")] if R.quick else [(0, R.seed, True, "-all"), (1500, R.seed + 1, False, "-rand")]
     run_proto(R, exe, runner, 60 if R.quick else 1500, R.seed)
+    run_race(R, 10 if R.quick else 120, R.seed)
     for n, seed, exh, tag in runs:
         trace = run_harness(R, exe, n, seed, exh, tag)
         if trace is None:
